@@ -1,10 +1,946 @@
-(* Proofs/Macros_proofs.v — lemmas about Michelson/Macros.v *)
+(* Proofs/Macros_proofs.v — lemmas about Michelson/Macros.v: the model of expand_macro produces code
+   that the reference evaluator cannot distinguish from the reference definition of each macro. *)
 From Coq Require Import List ZArith Bool String Ascii Arith Lia.
 From Coq.Strings Require Import Byte.
 From PV Require Import Base.Bytes Codec.Micheline Michelson.Macros.
 Import ListNotations.
 Local Open Scope list_scope.
 
-Lemma fail_meaning : forall ext (annots : list bytes) s,
-  expand "FAIL" [] [] = Some ref_fail /\ eval ext (NSeq ref_fail) s = RFailed VUnit.
-Proof. intros. split; reflexivity. Qed.
+Section WithExt.
+Variable ext : byte -> list node -> stack -> res.
+
+Notation ev := (eval ext).
+Notation evl := (eval_list ext).
+
+(* ---------------------------------------------------------------------------------------------- *)
+(* evaluator basics                                                                                *)
+
+Lemma eval_seq : forall l s, ev (NSeq l) s = evl l s.
+Proof.
+  induction l as [|i r IH]; intro s; [reflexivity|].
+  change (ev (NSeq (i :: r)) s) with (match ev i s with ROk s' => ev (NSeq r) s' | e => e end).
+  simpl. destruct (ev i s); auto.
+Qed.
+
+Lemma evl_app : forall a b s,
+  evl (a ++ b) s = match evl a s with ROk s' => evl b s' | e => e end.
+Proof.
+  induction a as [|i a IH]; intros b s; simpl; [reflexivity|].
+  destruct (ev i s); auto.
+Qed.
+
+Lemma eval_singleton : forall n s, ev (NSeq [n]) s = ev n s.
+Proof. intros. rewrite eval_seq. simpl. destruct (ev n s); reflexivity. Qed.
+
+Lemma eval_seqn : forall n s, ev (seqn n) s = ev n s.
+Proof. intros n s. unfold seqn. destruct (is_seq n); [reflexivity | apply eval_singleton]. Qed.
+
+Lemma dip_ext : forall k f g s, (forall x, f x = g x) -> dip k f s = dip k g s.
+Proof. intros k f g s H. unfold dip. rewrite H. reflexivity. Qed.
+
+Lemma dip_dip : forall n f s, dip 1 (dip n f) s = dip (S n) f s.
+Proof.
+  intros n f [|v s]; [reflexivity|].
+  unfold dip. simpl List.length. simpl skipn. simpl firstn.
+  change (S (List.length s) <? S n) with (List.length s <? n).
+  destruct (List.length s <? n); [reflexivity|].
+  destruct (f (skipn n s)); reflexivity.
+Qed.
+
+Lemma dip_app : forall pre s f, dip (List.length pre) f (pre ++ s) =
+  match f s with ROk s' => ROk (pre ++ s') | e => e end.
+Proof.
+  intros pre s f. unfold dip.
+  rewrite app_length.
+  replace (List.length pre + List.length s <? List.length pre) with false
+    by (symmetry; apply Nat.ltb_ge; lia).
+  rewrite skipn_app, Nat.sub_diag, skipn_all. simpl.
+  rewrite firstn_app, Nat.sub_diag, firstn_all. simpl. rewrite app_nil_r. reflexivity.
+Qed.
+
+Lemma dip1_cons : forall a s f, dip 1 f (a :: s) = match f s with ROk s' => ROk (a :: s') | e => e end.
+Proof. intros. apply (dip_app [a]). Qed.
+
+Lemma dip_short : forall k f s, List.length s < k -> dip k f s = RErr.
+Proof. intros k f s H. unfold dip. apply Nat.ltb_lt in H. rewrite H. reflexivity. Qed.
+
+Lemma eval_dip_nat : forall (n : nat) body an s,
+  ev (NPrim T_DIP [NInt (Z.of_nat n); body] an) s = dip n (ev body) s.
+Proof.
+  intros. cbn [eval byte_eqb Byte.eqb T_DIP].
+  change (byte_eqb T_DIP T_DIP) with true. cbv iota.
+  destruct (Z.of_nat n <? 0)%Z eqn:E; [apply Z.ltb_lt in E; lia|].
+  rewrite Nat2Z.id. reflexivity.
+Qed.
+
+Lemma eval_dip_n : forall body d pre s, List.length pre = d ->
+  ev (dip_n body d) (pre ++ s) = match ev body s with ROk s' => ROk (pre ++ s') | e => e end.
+Proof.
+  intros body d pre s H. destruct d as [|[|d]].
+  - destruct pre; [|discriminate]. simpl. destruct (ev body s); reflexivity.
+  - unfold dip_n. change (ev (NPrim T_DIP [seqn body] []) (pre ++ s)) with (dip 1 (ev (seqn body)) (pre ++ s)).
+    rewrite <- H, dip_app, eval_seqn. reflexivity.
+  - unfold dip_n. rewrite eval_dip_nat, <- H, dip_app, eval_seqn. reflexivity.
+Qed.
+
+Lemma eval_dip_n_short : forall body d s, List.length s < d -> ev (dip_n body d) s = RErr.
+Proof.
+  intros body d s H. destruct d as [|[|d]]; [lia| |].
+  - unfold dip_n. change (ev (NPrim T_DIP [seqn body] []) s) with (dip 1 (ev (seqn body)) s).
+    apply dip_short; assumption.
+  - unfold dip_n. rewrite eval_dip_nat. apply dip_short; assumption.
+Qed.
+
+(* annotations of an instruction never matter *)
+Lemma eval_annots : forall t args a1 a2 s, ev (NPrim t args a1) s = ev (NPrim t args a2) s.
+Proof. reflexivity. Qed.
+
+(* ---------------------------------------------------------------------------------------------- *)
+(* comparison / conditional / assertion macros                                                     *)
+
+Lemma seq_flatten : forall l1 l2 s, ev (NSeq (NSeq l1 :: l2)) s = ev (NSeq (l1 ++ l2)) s.
+Proof.
+  intros. rewrite !eval_seq, evl_app.
+  change (evl (NSeq l1 :: l2) s) with (match ev (NSeq l1) s with ROk s' => evl l2 s' | e => e end).
+  rewrite eval_seq. destruct (evl l1 s); reflexivity.
+Qed.
+
+Lemma seq_congr_last : forall l b b', (forall st, ev b st = ev b' st) ->
+  forall s, ev (NSeq (l ++ [b])) s = ev (NSeq (l ++ [b'])) s.
+Proof.
+  intros l b b' H s. rewrite !eval_seq, !evl_app. destruct (evl l s); try reflexivity.
+  simpl. rewrite H. reflexivity.
+Qed.
+
+Lemma if_fail_branch : forall st,
+  ev (NPrim T_IF [NSeq []; FAIL_branch] []) st = ev (NPrim T_IF [NSeq []; ref_fail_b] []) st.
+Proof. intros [|[] st]; reflexivity. Qed.
+
+Lemma cmp_dispatch : forall nm t, In (nm, t) cmp_ops -> forall (annots : list bytes) (bt bf : node),
+  expand ("CMP" ++ nm)%string annots [] = Some [I_COMPARE; primA t annots] /\
+  expand ("IF" ++ nm)%string annots [bt; bf] = Some [primA t annots; NPrim T_IF [bt; bf] []] /\
+  expand ("IFCMP" ++ nm)%string annots [bt; bf] = Some [NSeq [I_COMPARE; primA t annots]; NPrim T_IF [bt; bf] []] /\
+  expand ("ASSERT_" ++ nm)%string [] [] = Some [prim0 t; NPrim T_IF [NSeq []; FAIL_branch] []] /\
+  expand ("ASSERT_CMP" ++ nm)%string [] [] = Some [NSeq [I_COMPARE; prim0 t]; NPrim T_IF [NSeq []; FAIL_branch] []].
+Proof.
+  intros nm t H annots bt bf. simpl in H.
+  repeat (destruct H as [H|H]; [injection H as <- <-; repeat split; reflexivity|]). contradiction.
+Qed.
+
+Lemma cmp_sem : forall t (annots : list bytes) (bt bf : node) (s : stack),
+  ev (NSeq [I_COMPARE; primA t annots]) s = ev (NSeq (ref_cmp t)) s /\
+  ev (NSeq [primA t annots; NPrim T_IF [bt; bf] []]) s = ev (NSeq (ref_if t bt bf)) s /\
+  ev (NSeq [NSeq [I_COMPARE; primA t annots]; NPrim T_IF [bt; bf] []]) s = ev (NSeq (ref_ifcmp t bt bf)) s /\
+  ev (NSeq [prim0 t; NPrim T_IF [NSeq []; FAIL_branch] []]) s = ev (NSeq (ref_assert_op t)) s /\
+  ev (NSeq [NSeq [I_COMPARE; prim0 t]; NPrim T_IF [NSeq []; FAIL_branch] []]) s = ev (NSeq (ref_assert_cmp t)) s.
+Proof.
+  intros. split; [reflexivity|]. split; [reflexivity|]. split; [|split].
+  - rewrite seq_flatten. reflexivity.
+  - apply (seq_congr_last [prim0 t]). apply if_fail_branch.
+  - rewrite seq_flatten. apply (seq_congr_last [I_COMPARE; prim0 t]). apply if_fail_branch.
+Qed.
+
+(* ---------------------------------------------------------------------------------------------- *)
+(* FAIL, ASSERT, ASSERT_NONE/SOME/LEFT/RIGHT, IF_SOME, IF_RIGHT                                     *)
+
+Lemma fixed_dispatch : forall (annots : list bytes) (bt bf : node),
+  expand "FAIL" [] [] = Some [I_UNIT; I_FAILWITH] /\
+  expand "ASSERT" [] [] = Some [NPrim T_IF [NSeq []; FAIL_branch] []] /\
+  expand "ASSERT_NONE" [] [] = Some [NPrim T_IF_NONE [NSeq []; FAIL_branch] []] /\
+  expand "ASSERT_SOME" annots [] = Some [NPrim T_IF_NONE [FAIL_branch; NSeq [primA T_RENAME annots]] []] /\
+  expand "ASSERT_LEFT" annots [] = Some [NPrim T_IF_LEFT [NSeq [primA T_RENAME annots]; FAIL_branch] []] /\
+  expand "ASSERT_RIGHT" annots [] = Some [NPrim T_IF_LEFT [FAIL_branch; NSeq [primA T_RENAME annots]] []] /\
+  expand "IF_SOME" [] [bt; bf] = Some [NPrim T_IF_NONE [bf; bt] []] /\
+  expand "IF_RIGHT" [] [bt; bf] = Some [NPrim T_IF_LEFT [bf; bt] []].
+Proof. intros. repeat split. Qed.
+
+Lemma fixed_sem : forall (annots : list bytes) (bt bf : node) (s : stack),
+  ev (NSeq [I_UNIT; I_FAILWITH]) s = ev (NSeq ref_fail) s /\
+  ev (NSeq [NPrim T_IF [NSeq []; FAIL_branch] []]) s = ev (NSeq ref_assert) s /\
+  ev (NSeq [NPrim T_IF_NONE [NSeq []; FAIL_branch] []]) s = ev (NSeq ref_assert_none) s /\
+  ev (NSeq [NPrim T_IF_NONE [FAIL_branch; NSeq [primA T_RENAME annots]] []]) s = ev (NSeq ref_assert_some) s /\
+  ev (NSeq [NPrim T_IF_LEFT [NSeq [primA T_RENAME annots]; FAIL_branch] []]) s = ev (NSeq ref_assert_left) s /\
+  ev (NSeq [NPrim T_IF_LEFT [FAIL_branch; NSeq [primA T_RENAME annots]] []]) s = ev (NSeq ref_assert_right) s /\
+  ev (NSeq [NPrim T_IF_NONE [bf; bt] []]) s = ev (NSeq (ref_if_some bt bf)) s /\
+  ev (NSeq [NPrim T_IF_LEFT [bf; bt] []]) s = ev (NSeq (ref_if_right bt bf)) s.
+Proof.
+  intros. split; [reflexivity|].
+  repeat split; destruct s as [|[] s]; reflexivity.
+Qed.
+
+(* the meaning in words: FAIL always fails with Unit; the assertions either continue or fail with Unit *)
+Lemma fail_always : forall s, ev (NSeq ref_fail) s = RFailed VUnit.
+Proof. reflexivity. Qed.
+
+Lemma assert_meaning : forall b s,
+  ev (NSeq ref_assert) (VBool b :: s) = if b then ROk s else RFailed VUnit.
+Proof. intros [] s; reflexivity. Qed.
+
+(* ---------------------------------------------------------------------------------------------- *)
+(* DII+P and DUU+P                                                                                 *)
+
+Lemma run_rep : forall (c : ascii) (cs : string) n rest,
+  cs = String c EmptyString ->
+  (match rest with String a _ => Ascii.eqb a c = false | EmptyString => True end) ->
+  run c (rep cs n ++ rest)%string = (n, rest).
+Proof.
+  intros c cs n rest -> Hr. induction n as [|n IH]; simpl.
+  - destruct rest as [|a r]; [reflexivity|]. simpl. rewrite Hr. reflexivity.
+  - rewrite Ascii.eqb_refl, IH. reflexivity.
+Qed.
+
+Lemma dixp_dispatch : forall n code,
+  expand (dixp_name (S (S n))) [] [code] = Some [NPrim T_DIP [NInt (Z.of_nat (S (S n))); NSeq [code]] []].
+Proof.
+  intros n code. unfold dixp_name, expand, m_op, m_fixed, m_dxp. cbn -[run Z.of_nat Nat.leb].
+  change (String "I" (String "I" (rep "I" n ++ "P")))%string with (rep "I" (S (S n)) ++ "P")%string.
+  rewrite (run_rep "I" "I" (S (S n)) "P" eq_refl eq_refl). reflexivity.
+Qed.
+
+Lemma duxp_dispatch : forall n (annots : list bytes),
+  expand (duxp_name (S (S n))) annots [] = Some [NPrim T_DUP [NInt (Z.of_nat (S (S n)))] annots].
+Proof.
+  intros n annots. unfold duxp_name, expand, m_op, m_fixed, m_dxp. cbn -[run Z.of_nat Nat.leb].
+  change (String "U" (String "U" (rep "U" n ++ "P")))%string with (rep "U" (S (S n)) ++ "P")%string.
+  rewrite (run_rep "U" "U" (S (S n)) "P" eq_refl eq_refl). reflexivity.
+Qed.
+
+Lemma ref_dixp_eval : forall n code s, ev (ref_dixp (S n) code) s = dip (S n) (ev code) s.
+Proof.
+  induction n as [|n IH]; intros code s; [reflexivity|].
+  change (ev (ref_dixp (S (S n)) code) s) with (dip 1 (ev (NSeq [ref_dixp (S n) code])) s).
+  rewrite <- (dip_dip (S n) (ev code) s). apply dip_ext. intro x. rewrite eval_singleton. apply IH.
+Qed.
+
+Lemma dixp_sem : forall n code s,
+  ev (NSeq [NPrim T_DIP [NInt (Z.of_nat (S n)); NSeq [code]] []]) s = ev (ref_dixp (S n) code) s.
+Proof.
+  intros. rewrite eval_singleton, eval_dip_nat, ref_dixp_eval. apply dip_ext. intro x. apply eval_singleton.
+Qed.
+
+Definition dup_n (n : nat) (s : stack) : res :=
+  match nth_error s n with Some v => ROk (v :: s) | None => RErr end.
+
+Lemma ref_duxp_eval : forall n s, ev (NSeq (ref_duxp (S n))) s = dup_n n s.
+Proof.
+  induction n as [|n IH]; intro s.
+  - destruct s; reflexivity.
+  - change (ref_duxp (S (S n))) with [NPrim T_DIP [NSeq (ref_duxp (S n))] []; I_SWAP].
+    rewrite eval_seq.
+    change (evl [NPrim T_DIP [NSeq (ref_duxp (S n))] []; I_SWAP] s)
+      with (match dip 1 (ev (NSeq (ref_duxp (S n)))) s with ROk s' => evl [I_SWAP] s' | e => e end).
+    destruct s as [|a s]; [reflexivity|].
+    unfold dip. simpl List.length. simpl skipn. simpl firstn. cbv iota beta. simpl Nat.ltb. cbv iota.
+    rewrite IH. unfold dup_n. simpl nth_error. destruct (nth_error s n); reflexivity.
+Qed.
+
+Lemma duxp_sem : forall n (annots : list bytes) s,
+  ev (NSeq [NPrim T_DUP [NInt (Z.of_nat (S n))] annots]) s = ev (NSeq (ref_duxp (S n))) s.
+Proof.
+  intros. rewrite ref_duxp_eval, eval_singleton.
+  cbn [eval]. change (byte_eqb T_DUP T_DIP) with false. change (byte_eqb T_DUP T_IF) with false.
+  change (byte_eqb T_DUP T_IF_NONE) with false. change (byte_eqb T_DUP T_IF_LEFT) with false. cbv iota.
+  unfold step. change (byte_eqb T_DUP T_DROP) with false. change (byte_eqb T_DUP T_DUP) with true. cbv iota.
+  unfold nat_arg. destruct (Z.of_nat (S n) <? 0)%Z eqn:E; [apply Z.ltb_lt in E; lia|].
+  rewrite Nat2Z.id. reflexivity.
+Qed.
+
+(* ---------------------------------------------------------------------------------------------- *)
+(* C[AD]+R, SET_C[AD]+R, MAP_C[AD]+R                                                               *)
+
+Lemma parse_ad_letters : forall path, parse_ad (ad_letters path ++ "R")%string = Some path.
+Proof.
+  induction path as [|b r IH]; [reflexivity|].
+  destruct b; simpl; rewrite IH; reflexivity.
+Qed.
+
+Lemma cxr_dispatch : forall a b path (annots : list bytes),
+  expand (cxr_name (a :: b :: path)) annots [] = Some (cxr (a :: b :: path) annots).
+Proof.
+  intros a b path annots. unfold cxr_name, expand, m_op, m_fixed, m_dxp, m_pxr, m_cxr.
+  destruct a, b; cbn -[cxr]; rewrite parse_ad_letters; reflexivity.
+Qed.
+
+Lemma set_cxr_dispatch : forall a path (annots : list bytes),
+  expand (set_cxr_name (a :: path)) annots [] = Some (set_cxr (a :: path) annots).
+Proof.
+  intros a path annots. unfold set_cxr_name, expand, m_op, m_fixed, m_dxp, m_pxr, m_cxr.
+  destruct a; cbn -[set_cxr]; rewrite parse_ad_letters; reflexivity.
+Qed.
+
+Lemma map_cxr_dispatch : forall a path (annots : list bytes) args,
+  expand (map_cxr_name (a :: path)) annots args = map_cxr (a :: path) annots args.
+Proof.
+  intros a path annots args. unfold map_cxr_name, expand, m_op, m_fixed, m_dxp, m_pxr, m_cxr.
+  destruct a; cbn -[map_cxr]; rewrite parse_ad_letters; reflexivity.
+Qed.
+
+Lemma cxr_sem : forall path (annots : list bytes) s, path <> [] ->
+  ev (NSeq (cxr path annots)) s = ev (NSeq (ref_cxr path)) s.
+Proof.
+  induction path as [|b r IH]; intros annots s Hne; [contradiction|].
+  destruct r as [|c r].
+  - destruct b; reflexivity.
+  - rewrite !eval_seq.
+    change (evl (cxr (b :: c :: r) annots) s)
+      with (match ev (prim0 (cxr_tag b)) s with ROk s' => evl (cxr (c :: r) annots) s' | e => e end).
+    change (evl (ref_cxr (b :: c :: r)) s)
+      with (match ev (prim0 (cxr_tag b)) s with ROk s' => evl (ref_cxr (c :: r)) s' | e => e end).
+    destruct (ev (prim0 (cxr_tag b)) s); try reflexivity.
+    rewrite <- !eval_seq. apply IH. discriminate.
+Qed.
+
+(* what the path macros compute *)
+Lemma ref_cxr_access : forall path v s,
+  ev (NSeq (ref_cxr path)) (v :: s) = match access path v with Some x => ROk (x :: s) | None => RErr end.
+Proof.
+  induction path as [|b r IH]; intros v s; [reflexivity|].
+  rewrite eval_seq.
+  change (evl (ref_cxr (b :: r)) (v :: s))
+    with (match ev (prim0 (cxr_tag b)) (v :: s) with ROk s' => evl (ref_cxr r) s' | e => e end).
+  destruct v; try (destruct b; reflexivity).
+  destruct b; simpl access; rewrite <- IH, eval_seq; reflexivity.
+Qed.
+
+(* one unfolding step of SET_C?(rest)R / MAP_C?(rest)R, generic in the inner code *)
+Lemma set_step_a : forall X Y a1 a2 a3 a4, (forall st, ev X st = ev Y st) -> forall s,
+  ev (NSeq [I_DUP; NPrim T_DIP [NSeq [NPrim T_CAR [] a1; X]] a2; NPrim T_CDR [] a3; I_SWAP; NPrim T_PAIR [] a4]) s =
+  ev (NSeq [I_DUP; NPrim T_DIP [NSeq [I_CAR; Y]] []; I_CDR; I_SWAP; I_PAIR]) s.
+Proof.
+  intros X Y a1 a2 a3 a4 H [|v s]; [reflexivity|].
+  destruct v; try reflexivity.
+  cbn. rewrite H. reflexivity.
+Qed.
+
+Lemma set_step_d : forall X Y a1 a2 a3 a4, (forall st, ev X st = ev Y st) -> forall s,
+  ev (NSeq [I_DUP; NPrim T_DIP [NSeq [NPrim T_CDR [] a1; X]] a2; NPrim T_CAR [] a3; NPrim T_PAIR [] a4]) s =
+  ev (NSeq [I_DUP; NPrim T_DIP [NSeq [I_CDR; Y]] []; I_CAR; I_PAIR]) s.
+Proof.
+  intros X Y a1 a2 a3 a4 H [|v s]; [reflexivity|].
+  destruct v; try reflexivity.
+  cbn. rewrite H. reflexivity.
+Qed.
+
+Lemma set_cxr_sem : forall path (annots : list bytes) s, path <> [] ->
+  ev (NSeq (set_cxr path annots)) s = ev (NSeq (ref_set_cxr path)) s.
+Proof.
+  induction path as [|b r IH]; intros annots s Hne; [contradiction|].
+  destruct r as [|c r].
+  - destruct b; destruct s as [|x [|y s]]; try reflexivity; destruct x; reflexivity.
+  - destruct b.
+    + apply set_step_a. intro st. apply IH. discriminate.
+    + apply set_step_d. intro st. apply IH. discriminate.
+Qed.
+
+Lemma ref_set_cxr_meaning : forall path v x s, path <> [] ->
+  ev (NSeq (ref_set_cxr path)) (v :: x :: s) =
+  match set_path path v x with Some v' => ROk (v' :: s) | None => RErr end.
+Proof.
+  induction path as [|b r IH]; intros v x s Hne; [contradiction|].
+  destruct r as [|c r].
+  - destruct b; destruct v; reflexivity.
+  - destruct v; try (destruct b; reflexivity).
+    destruct b.
+    + change (ref_set_cxr (true :: c :: r))
+        with [I_DUP; NPrim T_DIP [NSeq [I_CAR; NSeq (ref_set_cxr (c :: r))]] []; I_CDR; I_SWAP; I_PAIR].
+      cbn -[ref_set_cxr set_path].
+      change ((fix go (l : list node) (s0 : stack) {struct l} : res :=
+                 match l with [] => ROk s0 | i :: r0 => match ev i s0 with ROk s' => go r0 s' | e => e end end)
+                (ref_set_cxr (c :: r)) (v1 :: x :: s))
+        with (ev (NSeq (ref_set_cxr (c :: r))) (v1 :: x :: s)).
+      rewrite IH by discriminate.
+      change (set_path (true :: c :: r) (VPair v1 v2) x) with (match set_path (c :: r) v1 x with Some p' => Some (VPair p' v2) | None => None end).
+      destruct (set_path (c :: r) v1 x); reflexivity.
+    + change (ref_set_cxr (false :: c :: r))
+        with [I_DUP; NPrim T_DIP [NSeq [I_CDR; NSeq (ref_set_cxr (c :: r))]] []; I_CAR; I_PAIR].
+      cbn -[ref_set_cxr set_path].
+      change ((fix go (l : list node) (s0 : stack) {struct l} : res :=
+                 match l with [] => ROk s0 | i :: r0 => match ev i s0 with ROk s' => go r0 s' | e => e end end)
+                (ref_set_cxr (c :: r)) (v2 :: x :: s))
+        with (ev (NSeq (ref_set_cxr (c :: r))) (v2 :: x :: s)).
+      rewrite IH by discriminate.
+      change (set_path (false :: c :: r) (VPair v1 v2) x) with (match set_path (c :: r) v2 x with Some q' => Some (VPair v1 q') | None => None end).
+      destruct (set_path (c :: r) v2 x); reflexivity.
+Qed.
+
+Lemma map_cxr_sem : forall path (annots : list bytes) code c, path <> [] ->
+  map_cxr path annots [code] = Some c ->
+  forall s, ev (NSeq c) s = ev (NSeq (ref_map_cxr path code)) s.
+Proof.
+  induction path as [|b r IH]; intros annots code c Hne Hc s; [contradiction|].
+  destruct r as [|d r].
+  - destruct b; simpl in Hc; destruct (map_cxr_annots annots) as [[x y]|]; try discriminate;
+      injection Hc as <-; reflexivity.
+  - destruct b.
+    + change (map_cxr (true :: d :: r) annots [code])
+        with (match map_cxr (d :: r) (field_annots annots) [code] with
+              | Some inner => Some [I_DUP; dip_n (NSeq [I_CAR__; NSeq inner]) 1; I_CDR__; I_SWAP; pair_pa annots]
+              | None => None end) in Hc.
+      destruct (map_cxr (d :: r) (field_annots annots) [code]) as [inner|] eqn:E; [|discriminate].
+      injection Hc as <-.
+      apply (set_step_a (NSeq inner) (NSeq (ref_map_cxr (d :: r) code))).
+      intro st. eapply IH; [discriminate | exact E].
+    + change (map_cxr (false :: d :: r) annots [code])
+        with (match map_cxr (d :: r) (field_annots annots) [code] with
+              | Some inner => Some [I_DUP; dip_n (NSeq [I_CDR__; NSeq inner]) 1; I_CAR__; pair_pa annots]
+              | None => None end) in Hc.
+      destruct (map_cxr (d :: r) (field_annots annots) [code]) as [inner|] eqn:E; [|discriminate].
+      injection Hc as <-.
+      apply (set_step_d (NSeq inner) (NSeq (ref_map_cxr (d :: r) code))).
+      intro st. eapply IH; [discriminate | exact E].
+Qed.
+
+Lemma map_cxr_defined : forall path (annots : list bytes) code, path <> [] ->
+  List.length (field_annots annots) <= 1 -> map_cxr path annots [code] <> None.
+Proof.
+  assert (Hff : forall a, field_annots (field_annots a) = field_annots a).
+  { intro a. unfold field_annots. induction a as [|x a IH]; [reflexivity|].
+    simpl. destruct (starts_with x25 x) eqn:E; simpl; [rewrite E, IH|]; auto. }
+  induction path as [|b r IH]; intros annots code Hne Hl; [contradiction|].
+  destruct r as [|d r].
+  - destruct b; simpl; unfold map_cxr_annots; destruct (field_annots annots) as [|x [|y l]];
+      simpl in *; try discriminate; lia.
+  - specialize (IH (field_annots annots) code ltac:(discriminate)). rewrite Hff in IH. specialize (IH Hl).
+    destruct b.
+    + change (map_cxr (true :: d :: r) annots [code])
+        with (match map_cxr (d :: r) (field_annots annots) [code] with
+              | Some inner => Some [I_DUP; dip_n (NSeq [I_CAR__; NSeq inner]) 1; I_CDR__; I_SWAP; pair_pa annots]
+              | None => None end).
+      destruct (map_cxr (d :: r) (field_annots annots) [code]); [discriminate | contradiction].
+    + change (map_cxr (false :: d :: r) annots [code])
+        with (match map_cxr (d :: r) (field_annots annots) [code] with
+              | Some inner => Some [I_DUP; dip_n (NSeq [I_CDR__; NSeq inner]) 1; I_CAR__; pair_pa annots]
+              | None => None end).
+      destruct (map_cxr (d :: r) (field_annots annots) [code]); [discriminate | contradiction].
+Qed.
+
+(* ---------------------------------------------------------------------------------------------- *)
+(* PAIR / UNPAIR trees                                                                             *)
+
+Fixpoint size (t : tree) : nat := match t with L => 1 | N l r => S (size l + size r) end.
+
+(* the tree build_pxr_tree computes for a well-formed name: depths and leaf annotations *)
+Fixpoint decorate (t : tree) (annots : list bytes) (d : nat) : pxr * list bytes * nat :=
+  match t with
+  | L => (PLeaf (hd_error annots), tl annots, S d)
+  | N l r => let '(pl, a1, d1) := decorate l annots d in
+             let '(pr, a2, d2) := decorate r a1 d1 in
+             (PNode d pl pr, a2, d2)
+  end.
+Definition dec (t : tree) (annots : list bytes) (d : nat) : pxr := fst (fst (decorate t annots d)).
+
+Lemma decorate_depth : forall t a d, snd (decorate t a d) = d + leaves t.
+Proof.
+  induction t as [|l IHl r IHr]; intros a d; simpl; [lia|].
+  destruct (decorate l a d) as [[pl a1] d1] eqn:El.
+  destruct (decorate r a1 d1) as [[pr a2] d2] eqn:Er. simpl.
+  specialize (IHl a d). specialize (IHr a1 d1). rewrite El in IHl. rewrite Er in IHr. simpl in *. lia.
+Qed.
+
+Lemma dec_node : forall l r a d,
+  dec (N l r) a d = PNode d (dec l a d) (dec r (snd (fst (decorate l a d))) (d + leaves l)).
+Proof.
+  intros. unfold dec. simpl. pose proof (decorate_depth l a d) as H.
+  destruct (decorate l a d) as [[pl a1] d1]. simpl in *. subst d1.
+  destruct (decorate r a1 (d + leaves l)) as [[pr a2] d2]. reflexivity.
+Qed.
+
+Lemma sapp_assoc : forall a b c : string, ((a ++ b) ++ c = a ++ (b ++ c))%string.
+Proof. induction a; intros; simpl; [reflexivity | rewrite IHa; reflexivity]. Qed.
+
+Lemma slen_app : forall a b : string, String.length (a ++ b) = String.length a + String.length b.
+Proof. induction a; intros; simpl; [reflexivity | rewrite IHa; reflexivity]. Qed.
+
+Lemma slen_letters : forall t b, String.length (letters b t) = size t.
+Proof.
+  induction t as [|l IHl r IHr]; intro b; [destruct b; reflexivity|].
+  simpl. rewrite slen_app, IHl, IHr. reflexivity.
+Qed.
+
+Lemma parse_letters : forall t left rest annots d fuel, size t <= fuel ->
+  parse_pxr fuel (letters left t ++ rest) annots d =
+  Some (dec t annots d, rest, snd (fst (decorate t annots d)), snd (decorate t annots d)).
+Proof.
+  induction t as [|l IHl r IHr]; intros left rest annots d fuel Hf.
+  - destruct fuel as [|f]; [simpl in Hf; lia|]. destruct left; reflexivity.
+  - destruct fuel as [|f]; [simpl in Hf; lia|]. simpl in Hf.
+    change (letters left (N l r)) with ("P" ++ letters true l ++ letters false r)%string.
+    rewrite !sapp_assoc.
+    change (parse_pxr (S f) ("P" ++ letters true l ++ letters false r ++ rest) annots d)
+      with (match parse_pxr f (letters true l ++ letters false r ++ rest) annots d with
+            | None => None
+            | Some (lt, r1, a1, d1) =>
+                match parse_pxr f r1 a1 d1 with
+                | None => None
+                | Some (rt, r2, a2, d2) => Some (PNode d lt rt, r2, a2, d2)
+                end
+            end).
+    rewrite IHl by lia. rewrite IHr by lia.
+    unfold dec. simpl.
+    destruct (decorate l annots d) as [[pl a1] d1]. simpl.
+    destruct (decorate r a1 d1) as [[pr a2] d2]. reflexivity.
+Qed.
+
+Lemma build_pxr_pair_name : forall t annots,
+  build_pxr_tree (pair_name t) annots = Some (dec t annots 0).
+Proof.
+  intros. unfold build_pxr_tree, pair_name.
+  rewrite parse_letters; [reflexivity|].
+  rewrite slen_app, slen_letters. lia.
+Qed.
+
+Lemma count_pai_letters : forall t b rest,
+  count_pai (letters b t ++ rest) = option_map (fun n => size t + n) (count_pai rest).
+Proof.
+  induction t as [|l IHl r IHr]; intros b rest.
+  - destruct b; simpl; destruct (count_pai rest); reflexivity.
+  - change (letters b (N l r)) with ("P" ++ letters true l ++ letters false r)%string.
+    rewrite !sapp_assoc. simpl. rewrite IHl, IHr. destruct (count_pai rest); simpl; [f_equal; lia | reflexivity].
+Qed.
+
+Lemma size_ge_1 : forall t, 1 <= size t.
+Proof. destruct t; simpl; lia. Qed.
+
+Lemma is_pxr_pair_name : forall l r, l <> L \/ r <> L -> is_pxr_name (pair_name (N l r)) = true.
+Proof.
+  intros l r H. unfold pair_name.
+  change (letters true (N l r)) with ("P" ++ letters true l ++ letters false r)%string.
+  rewrite !sapp_assoc. unfold is_pxr_name. cbn -[Nat.leb count_pai letters size].
+  rewrite !count_pai_letters. cbn -[Nat.leb size].
+  apply Nat.leb_le.
+  pose proof (size_ge_1 l) as Hl1. pose proof (size_ge_1 r) as Hr1.
+  destruct H as [H|H].
+  - destruct l as [|l1 l2]; [contradiction|]. pose proof (size_ge_1 l1). pose proof (size_ge_1 l2). simpl in *. lia.
+  - destruct r as [|r1 r2]; [contradiction|]. pose proof (size_ge_1 r1). pose proof (size_ge_1 r2). simpl in *. lia.
+Qed.
+
+Definition pair_code (t : tree) (annots : list bytes) : list node :=
+  rev (pxr_preorder (produce_pair (var_annots annots)) true (dec t (field_annots annots) 0)).
+Definition unpair_code (t : tree) (annots : list bytes) : list node :=
+  pxr_preorder produce_unpair true (dec t annots 0).
+
+Lemma pair_dispatch : forall l r (annots : list bytes), l <> L \/ r <> L ->
+  expand (pair_name (N l r)) annots [] = Some (pair_code (N l r) annots).
+Proof.
+  intros l r annots H. unfold expand, m_op, m_fixed, m_dxp, m_pxr.
+  rewrite (is_pxr_pair_name l r H).
+  unfold pair_name at 1 2 3 4 5 6 7.
+  change (letters true (N l r)) with ("P" ++ letters true l ++ letters false r)%string.
+  cbn -[expand_pxr pair_name letters]. unfold expand_pxr. simpl nil_b. cbv iota.
+  rewrite build_pxr_pair_name. reflexivity.
+Qed.
+
+Lemma unpair_dispatch : forall l r (annots : list bytes), l <> L \/ r <> L ->
+  expand (unpair_name (N l r)) annots [] = Some (unpair_code (N l r) annots).
+Proof.
+  intros l r annots H. unfold expand, m_op, m_fixed, m_dxp, m_pxr, unpair_name.
+  cbn -[expand_unpxr pair_name is_pxr_name].
+  rewrite (is_pxr_pair_name l r H). unfold expand_unpxr. simpl nil_b. cbv iota.
+  rewrite build_pxr_pair_name. reflexivity.
+Qed.
+
+(* [Built t sl v]: v is the tree-shaped pairing of the leaves sl *)
+Inductive Built : tree -> list val -> val -> Prop :=
+| BL v : Built L [v] v
+| BN l r sl sr a b : Built l sl a -> Built r sr b -> Built (N l r) (sl ++ sr) (VPair a b).
+
+Lemma built_length : forall t sl v, Built t sl v -> List.length sl = leaves t.
+Proof. induction 1; simpl; [reflexivity | rewrite app_length; lia]. Qed.
+
+Lemma build_built : forall t s v s', build t s = Some (v, s') -> exists sl, Built t sl v /\ s = sl ++ s'.
+Proof.
+  induction t as [|l IHl r IHr]; intros s v s' H; simpl in H.
+  - destruct s as [|x s]; [discriminate|]. injection H as <- <-. exists [x]. split; [constructor | reflexivity].
+  - destruct (build l s) as [[a s1]|] eqn:El; [|discriminate].
+    destruct (build r s1) as [[b s2]|] eqn:Er; [|discriminate].
+    injection H as <- <-.
+    destruct (IHl _ _ _ El) as [sl [Bl ->]]. destruct (IHr _ _ _ Er) as [sr [Br ->]].
+    exists (sl ++ sr). split; [constructor; assumption | rewrite app_assoc; reflexivity].
+Qed.
+
+Lemma built_build : forall t sl v, Built t sl v -> forall s', build t (sl ++ s') = Some (v, s').
+Proof.
+  induction 1 as [v|l r sl sr a b Bl IHl Br IHr]; intro s'; [reflexivity|].
+  simpl. rewrite <- app_assoc, IHl, IHr. reflexivity.
+Qed.
+
+Lemma built_split : forall t sl v, Built t sl v -> split t v = Some sl.
+Proof. induction 1; simpl; [reflexivity|]. rewrite IHBuilt1, IHBuilt2. reflexivity. Qed.
+
+Lemma split_built : forall t v sl, split t v = Some sl -> Built t sl v.
+Proof.
+  induction t as [|l IHl r IHr]; intros v sl H; simpl in H.
+  - injection H as <-. constructor.
+  - destruct v; try discriminate.
+    destruct (split l v1) as [x|] eqn:E1; [|discriminate].
+    destruct (split r v2) as [y|] eqn:E2; [|discriminate].
+    injection H as <-. constructor; auto.
+Qed.
+
+Lemma build_none_short : forall t s, build t s = None -> List.length s < leaves t.
+Proof.
+  induction t as [|l IHl r IHr]; intros s H; simpl in H.
+  - destruct s; [simpl; lia | discriminate].
+  - destruct (build l s) as [[a s1]|] eqn:El.
+    + destruct (build r s1) as [[b s2]|] eqn:Er; [discriminate|].
+      apply IHr in Er. destruct (build_built _ _ _ _ El) as [sl [Bl ->]].
+      rewrite app_length, (built_length _ _ _ Bl). simpl. lia.
+    + apply IHl in El. simpl. lia.
+Qed.
+
+Lemma built_total : forall t sl, List.length sl = leaves t -> exists v, Built t sl v.
+Proof.
+  induction t as [|l IHl r IHr]; intros sl H; simpl in H.
+  - destruct sl as [|x [|y sl]]; try discriminate. exists x. constructor.
+  - destruct (IHl (firstn (leaves l) sl)) as [a Ba]; [rewrite firstn_length; lia|].
+    destruct (IHr (skipn (leaves l) sl)) as [b Bb]; [rewrite skipn_length; lia|].
+    exists (VPair a b). rewrite <- (firstn_skipn (leaves l) sl). constructor; assumption.
+Qed.
+
+Lemma eval_pair_instr : forall an a b s, ev (NPrim T_PAIR [] an) (a :: b :: s) = ROk (VPair a b :: s).
+Proof. reflexivity. Qed.
+
+Lemma pair_py_main : forall t sl v, Built t sl v -> forall vars root annots d pre s',
+  List.length pre = d ->
+  evl (rev (pxr_preorder (produce_pair vars) root (dec t annots d))) (pre ++ sl ++ s') = ROk (pre ++ v :: s').
+Proof.
+  induction 1 as [v|l r sl sr a b Bl IHl Br IHr]; intros vars root annots d pre s' Hd.
+  - reflexivity.
+  - rewrite dec_node. cbn [pxr_preorder]. cbn [rev]. rewrite rev_app_distr, !evl_app.
+    replace (pre ++ (sl ++ sr) ++ s') with ((pre ++ sl) ++ sr ++ s') by (rewrite <- !app_assoc; reflexivity).
+    rewrite IHr by (rewrite app_length, (built_length _ _ _ Bl); lia).
+    rewrite <- app_assoc. rewrite IHl by assumption.
+    cbn [eval_list]. rewrite eval_dip_n by assumption.
+    unfold produce_pair, primA. rewrite eval_pair_instr. reflexivity.
+Qed.
+
+Lemma eval_unpair_instr : forall an a b s, ev (NSeq [NPrim T_UNPAIR [] an]) (VPair a b :: s) = ROk (a :: b :: s).
+Proof. reflexivity. Qed.
+
+Lemma unpair_py_main : forall t sl v, Built t sl v -> forall root annots d pre s',
+  List.length pre = d ->
+  evl (pxr_preorder produce_unpair root (dec t annots d)) (pre ++ v :: s') = ROk (pre ++ sl ++ s').
+Proof.
+  induction 1 as [v|l r sl sr a b Bl IHl Br IHr]; intros root annots d pre s' Hd.
+  - reflexivity.
+  - rewrite dec_node. cbn [pxr_preorder]. cbn [eval_list]. rewrite eval_dip_n by assumption.
+    unfold produce_unpair, primA. rewrite eval_unpair_instr. rewrite evl_app.
+    rewrite IHl by assumption.
+    replace (pre ++ sl ++ b :: s') with ((pre ++ sl) ++ b :: s') by (rewrite <- app_assoc; reflexivity).
+    rewrite IHr by (rewrite app_length, (built_length _ _ _ Bl); lia).
+    rewrite <- !app_assoc. reflexivity.
+Qed.
+
+Lemma ref_pair_main : forall t sl v, Built t sl v -> forall s', evl (ref_pair t) (sl ++ s') = ROk (v :: s').
+Proof.
+  induction 1 as [v|l r sl sr a b Bl IHl Br IHr]; intro s'; [reflexivity|].
+  cbn [ref_pair]. rewrite !evl_app, <- app_assoc, IHl.
+  assert (Hr : evl match r with L => [] | N _ _ => [NPrim T_DIP [NSeq (ref_pair r)] []] end (a :: sr ++ s')
+               = ROk (a :: b :: s')).
+  { destruct r as [|r1 r2].
+    - inversion Br; subst. reflexivity.
+    - cbn [eval_list].
+      change (ev (NPrim T_DIP [NSeq (ref_pair (N r1 r2))] []) (a :: sr ++ s'))
+        with (dip 1 (ev (NSeq (ref_pair (N r1 r2)))) (a :: sr ++ s')).
+      rewrite dip1_cons. rewrite eval_seq, IHr. reflexivity. }
+  cbv beta iota. rewrite evl_app, Hr. reflexivity.
+Qed.
+
+Lemma ref_unpair_main : forall t sl v, Built t sl v -> forall s', evl (ref_unpair t) (v :: s') = ROk (sl ++ s').
+Proof.
+  induction 1 as [v|l r sl sr a b Bl IHl Br IHr]; intro s'; [reflexivity|].
+  cbn [ref_unpair]. rewrite !evl_app.
+  change (evl [I_UNPAIR] (VPair a b :: s')) with (ROk (a :: b :: s')). cbv iota.
+  assert (Hr : evl match r with L => [] | N _ _ => [NPrim T_DIP [NSeq (ref_unpair r)] []] end (a :: b :: s')
+               = ROk (a :: sr ++ s')).
+  { destruct r as [|r1 r2].
+    - inversion Br; subst. reflexivity.
+    - cbn [eval_list].
+      change (ev (NPrim T_DIP [NSeq (ref_unpair (N r1 r2))] []) (a :: b :: s'))
+        with (dip 1 (ev (NSeq (ref_unpair (N r1 r2)))) (a :: b :: s')).
+      rewrite dip1_cons. rewrite eval_seq, IHr. reflexivity. }
+  cbv beta iota. rewrite evl_app, Hr, IHl, <- app_assoc. reflexivity.
+Qed.
+
+(* failure: a PAIR tree on a stack with too few elements *)
+Lemma pair_py_short : forall t vars root annots d st, t <> L ->
+  List.length st < d + leaves t ->
+  evl (rev (pxr_preorder (produce_pair vars) root (dec t annots d))) st = RErr.
+Proof.
+  induction t as [|l IHl r IHr]; intros vars root annots d st Hne Hlen; [contradiction|].
+  rewrite dec_node. cbn [pxr_preorder]. cbn [rev]. rewrite rev_app_distr, !evl_app.
+  simpl in Hlen.
+  assert (Hroot : forall st', List.length st' < d + 2 ->
+            evl [dip_n (produce_pair vars root
+                    (child_annot (dec l annots d))
+                    (child_annot (dec r (snd (fst (decorate l annots d))) (d + leaves l)))) d] st' = RErr).
+  { intros st' H'. cbn [eval_list].
+    destruct (Nat.lt_ge_cases (List.length st') d) as [Hs|Hs].
+    - rewrite eval_dip_n_short by assumption. reflexivity.
+    - rewrite <- (firstn_skipn d st'). rewrite eval_dip_n by (rewrite firstn_length; lia).
+      assert (Hk : List.length (skipn d st') < 2) by (rewrite skipn_length; lia).
+      destruct (skipn d st') as [|x [|y z]]; try reflexivity. simpl in Hk. lia. }
+  destruct r as [|r1 r2].
+  - (* right leaf: no code for it *)
+    change (pxr_preorder (produce_pair vars) false (dec L (snd (fst (decorate l annots d))) (d + leaves l))) with (@nil node).
+    cbn [rev eval_list]. simpl in Hlen.
+    destruct l as [|l1 l2].
+    + change (pxr_preorder (produce_pair vars) false (dec L annots d)) with (@nil node).
+      cbn [rev eval_list]. apply Hroot. simpl in Hlen. lia.
+    + destruct (Nat.lt_ge_cases (List.length st) (d + leaves (N l1 l2))) as [Hs|Hs].
+      * rewrite IHl by (try discriminate; assumption). reflexivity.
+      * assert (Hex : List.length st = d + leaves (N l1 l2)) by lia.
+        destruct (built_total (N l1 l2) (skipn d st)) as [a Ba]; [rewrite skipn_length; lia|].
+        rewrite <- (firstn_skipn d st).
+        rewrite <- (app_nil_r (skipn d st)).
+        rewrite (pair_py_main _ _ _ Ba) by (rewrite firstn_length; lia).
+        apply Hroot. rewrite app_length, firstn_length. simpl. lia.
+  - destruct (Nat.lt_ge_cases (List.length st) ((d + leaves l) + leaves (N r1 r2))) as [Hs|Hs].
+    + rewrite IHr by (try discriminate; assumption). reflexivity.
+    + simpl in *. lia.
+Qed.
+
+Lemma ref_pair_short : forall t st, t <> L -> List.length st < leaves t -> evl (ref_pair t) st = RErr.
+Proof.
+  induction t as [|l IHl r IHr]; intros st Hne Hlen; [contradiction|].
+  cbn [ref_pair]. rewrite evl_app. simpl in Hlen.
+  destruct (Nat.lt_ge_cases (List.length st) (leaves l)) as [Hs|Hs].
+  - destruct l as [|l1 l2].
+    + destruct st; [|simpl in Hs; lia]. cbn [ref_pair eval_list]. destruct r; reflexivity.
+    + rewrite IHl by (try discriminate; assumption). reflexivity.
+  - destruct (built_total l (firstn (leaves l) st)) as [a Ba]; [rewrite firstn_length; lia|].
+    rewrite <- (firstn_skipn (leaves l) st). rewrite (ref_pair_main _ _ _ Ba). cbv beta iota.
+    assert (Hk : List.length (skipn (leaves l) st) < leaves r) by (rewrite skipn_length; lia).
+    rewrite evl_app.
+    destruct r as [|r1 r2].
+    + simpl in Hk. destruct (skipn (leaves l) st); [reflexivity | simpl in Hk; lia].
+    + cbn [eval_list].
+      change (ev (NPrim T_DIP [NSeq (ref_pair (N r1 r2))] []) (a :: skipn (leaves l) st))
+        with (dip 1 (ev (NSeq (ref_pair (N r1 r2)))) (a :: skipn (leaves l) st)).
+      rewrite dip1_cons, eval_seq, IHr by (try discriminate; assumption). reflexivity.
+Qed.
+
+Lemma unpair_py_fail : forall t root annots d pre v s, List.length pre = d -> split t v = None ->
+  evl (pxr_preorder produce_unpair root (dec t annots d)) (pre ++ v :: s) = RErr.
+Proof.
+  induction t as [|l IHl r IHr]; intros root annots d pre v s Hd Hs; [discriminate|].
+  rewrite dec_node. cbn [pxr_preorder eval_list]. rewrite eval_dip_n by assumption.
+  unfold produce_unpair, primA.
+  destruct v; try reflexivity.
+  rewrite eval_unpair_instr. rewrite evl_app. simpl in Hs.
+  destruct (split l v1) as [sl|] eqn:E1.
+  - rewrite (unpair_py_main _ _ _ (split_built _ _ _ E1)) by assumption.
+    destruct (split r v2) as [sr|] eqn:E2; [discriminate|].
+    replace (pre ++ sl ++ v2 :: s) with ((pre ++ sl) ++ v2 :: s) by (rewrite <- app_assoc; reflexivity).
+    apply IHr; [|assumption].
+    rewrite app_length, (built_length _ _ _ (split_built _ _ _ E1)). lia.
+  - rewrite IHl by assumption. reflexivity.
+Qed.
+
+Lemma unpair_py_empty : forall l r root annots d pre, List.length pre = d ->
+  evl (pxr_preorder produce_unpair root (dec (N l r) annots d)) pre = RErr.
+Proof.
+  intros. rewrite dec_node. cbn [pxr_preorder eval_list].
+  rewrite <- (app_nil_r pre) at 1. rewrite eval_dip_n by assumption. reflexivity.
+Qed.
+
+Lemma ref_unpair_fail : forall t v s, split t v = None -> evl (ref_unpair t) (v :: s) = RErr.
+Proof.
+  induction t as [|l IHl r IHr]; intros v s Hs; [discriminate|].
+  cbn [ref_unpair]. rewrite evl_app.
+  destruct v; try reflexivity.
+  change (evl [I_UNPAIR] (VPair v1 v2 :: s)) with (ROk (v1 :: v2 :: s)). cbv beta iota.
+  rewrite evl_app. simpl in Hs.
+  destruct (split r v2) as [sr|] eqn:E2.
+  - assert (Hr : evl match r with L => [] | N _ _ => [NPrim T_DIP [NSeq (ref_unpair r)] []] end (v1 :: v2 :: s)
+                 = ROk (v1 :: sr ++ s)).
+    { destruct r as [|r1 r2].
+      - simpl in E2. injection E2 as <-. reflexivity.
+      - cbn [eval_list].
+        change (ev (NPrim T_DIP [NSeq (ref_unpair (N r1 r2))] []) (v1 :: v2 :: s))
+          with (dip 1 (ev (NSeq (ref_unpair (N r1 r2)))) (v1 :: v2 :: s)).
+        rewrite dip1_cons, eval_seq, (ref_unpair_main _ _ _ (split_built _ _ _ E2)). reflexivity. }
+    rewrite Hr. destruct (split l v1) eqn:E1; [discriminate|]. apply IHl. assumption.
+  - destruct r as [|r1 r2]; [discriminate|].
+    cbn [eval_list].
+    change (ev (NPrim T_DIP [NSeq (ref_unpair (N r1 r2))] []) (v1 :: v2 :: s))
+      with (dip 1 (ev (NSeq (ref_unpair (N r1 r2)))) (v1 :: v2 :: s)).
+    rewrite dip1_cons, eval_seq, IHr by assumption. reflexivity.
+Qed.
+
+(* ---- the PAIR / UNPAIR statements in final form ------------------------------------------------ *)
+Definition pair_result (t : tree) (s : stack) : res :=
+  match build t s with Some (v, s') => ROk (v :: s') | None => RErr end.
+Definition unpair_result (t : tree) (s : stack) : res :=
+  match s with
+  | v :: s' => match split t v with Some sl => ROk (sl ++ s') | None => RErr end
+  | [] => RErr
+  end.
+
+Lemma pair_total : forall l r (annots : list bytes) s,
+  ev (NSeq (pair_code (N l r) annots)) s = pair_result (N l r) s /\
+  ev (NSeq (ref_pair (N l r))) s = pair_result (N l r) s.
+Proof.
+  intros l r annots s. rewrite !eval_seq. unfold pair_result, pair_code.
+  destruct (build (N l r) s) as [[v s']|] eqn:E.
+  - destruct (build_built _ _ _ _ E) as [sl [B ->]]. split.
+    + apply (pair_py_main _ _ _ B _ _ _ 0 []). reflexivity.
+    + apply (ref_pair_main _ _ _ B).
+  - apply build_none_short in E. split.
+    + apply pair_py_short; [discriminate | assumption].
+    + apply ref_pair_short; [discriminate | assumption].
+Qed.
+
+Lemma unpair_total : forall l r (annots : list bytes) s,
+  ev (NSeq (unpair_code (N l r) annots)) s = unpair_result (N l r) s /\
+  ev (NSeq (ref_unpair (N l r))) s = unpair_result (N l r) s.
+Proof.
+  intros l r annots s. rewrite !eval_seq. unfold unpair_result, unpair_code.
+  destruct s as [|v s'].
+  - split; [apply (unpair_py_empty l r true annots 0 []); reflexivity | reflexivity].
+  - destruct (split (N l r) v) as [sl|] eqn:E.
+    + apply split_built in E. split.
+      * apply (unpair_py_main _ _ _ E true annots 0 []). reflexivity.
+      * apply (ref_unpair_main _ _ _ E).
+    + split.
+      * apply (unpair_py_fail (N l r) true annots 0 [] v s'); [reflexivity | assumption].
+      * apply ref_unpair_fail. assumption.
+Qed.
+
+Lemma unpair_inverts_pair : forall l r (a1 a2 : list bytes) s s1,
+  ev (NSeq (pair_code (N l r) a1)) s = ROk s1 ->
+  ev (NSeq (unpair_code (N l r) a2)) s1 = ROk s.
+Proof.
+  intros l r a1 a2 s s1 H.
+  rewrite (proj1 (pair_total l r a1 s)) in H. unfold pair_result in H.
+  destruct (build (N l r) s) as [[v s']|] eqn:E; [|discriminate]. injection H as <-.
+  rewrite (proj1 (unpair_total l r a2 (v :: s'))). unfold unpair_result.
+  destruct (build_built _ _ _ _ E) as [sl [B ->]]. rewrite (built_split _ _ _ B). reflexivity.
+Qed.
+
+Lemma pair_inverts_unpair : forall l r (a1 a2 : list bytes) s s1,
+  ev (NSeq (unpair_code (N l r) a1)) s = ROk s1 ->
+  ev (NSeq (pair_code (N l r) a2)) s1 = ROk s.
+Proof.
+  intros l r a1 a2 s s1 H.
+  rewrite (proj1 (unpair_total l r a1 s)) in H. unfold unpair_result in H.
+  destruct s as [|v s']; [discriminate|].
+  destruct (split (N l r) v) as [sl|] eqn:E; [|discriminate]. injection H as <-.
+  rewrite (proj1 (pair_total l r a2 (sl ++ s'))). unfold pair_result.
+  rewrite (built_build _ _ _ (split_built _ _ _ E)). reflexivity.
+Qed.
+End WithExt.
+
+(* ============================================================================================== *)
+(* final statements (closed: [ext] is the arbitrary meaning of primitives outside the fragment)   *)
+
+Definition expands_to_ref (ext : byte -> list node -> stack -> res)
+           (name : string) (annots : list bytes) (args : list node) (ref : list node) : Prop :=
+  exists code, expand name annots args = Some code /\
+               forall s, eval ext (NSeq code) s = eval ext (NSeq ref) s.
+
+Lemma cmp_macros : forall ext nm t, In (nm, t) cmp_ops -> forall (annots : list bytes) (bt bf : node),
+  expands_to_ref ext ("CMP" ++ nm)%string annots [] (ref_cmp t) /\
+  expands_to_ref ext ("IF" ++ nm)%string annots [bt; bf] (ref_if t bt bf) /\
+  expands_to_ref ext ("IFCMP" ++ nm)%string annots [bt; bf] (ref_ifcmp t bt bf) /\
+  expands_to_ref ext ("ASSERT_" ++ nm)%string [] [] (ref_assert_op t) /\
+  expands_to_ref ext ("ASSERT_CMP" ++ nm)%string [] [] (ref_assert_cmp t).
+Proof.
+  intros ext nm t H annots bt bf.
+  destruct (cmp_dispatch nm t H annots bt bf) as (D1 & D2 & D3 & D4 & D5).
+  repeat split; eexists; (split; [eassumption|]); intro s;
+    destruct (cmp_sem ext t annots bt bf s) as (S1 & S2 & S3 & S4 & S5); assumption.
+Qed.
+
+Lemma fixed_macros : forall ext (annots : list bytes) (bt bf : node),
+  expands_to_ref ext "FAIL" [] [] ref_fail /\
+  expands_to_ref ext "ASSERT" [] [] ref_assert /\
+  expands_to_ref ext "ASSERT_NONE" [] [] ref_assert_none /\
+  expands_to_ref ext "ASSERT_SOME" annots [] ref_assert_some /\
+  expands_to_ref ext "ASSERT_LEFT" annots [] ref_assert_left /\
+  expands_to_ref ext "ASSERT_RIGHT" annots [] ref_assert_right /\
+  expands_to_ref ext "IF_SOME" [] [bt; bf] (ref_if_some bt bf) /\
+  expands_to_ref ext "IF_RIGHT" [] [bt; bf] (ref_if_right bt bf).
+Proof.
+  intros ext annots bt bf.
+  destruct (fixed_dispatch annots bt bf) as (D1 & D2 & D3 & D4 & D5 & D6 & D7 & D8).
+  repeat split; eexists; (split; [eassumption|]); intro s;
+    destruct (fixed_sem ext annots bt bf s) as (S1 & S2 & S3 & S4 & S5 & S6 & S7 & S8); assumption.
+Qed.
+
+Lemma dixp_macro : forall ext n code,
+  expands_to_ref ext (dixp_name (S (S n))) [] [code] [ref_dixp (S (S n)) code].
+Proof.
+  intros. eexists. split; [apply dixp_dispatch|]. intro s.
+  rewrite dixp_sem. symmetry. apply eval_singleton.
+Qed.
+
+Lemma duxp_macro : forall ext n (annots : list bytes),
+  expands_to_ref ext (duxp_name (S (S n))) annots [] (ref_duxp (S (S n))) /\
+  forall s, eval ext (NSeq (ref_duxp (S (S n)))) s = dup_n (S n) s.
+Proof.
+  intros. split; [|apply ref_duxp_eval]. eexists. split; [apply duxp_dispatch|]. intro s. apply duxp_sem.
+Qed.
+
+Lemma pair_macro : forall ext l r (annots : list bytes), l <> L \/ r <> L ->
+  expands_to_ref ext (pair_name (N l r)) annots [] (ref_pair (N l r)) /\
+  forall s, eval ext (NSeq (ref_pair (N l r))) s = pair_result (N l r) s.
+Proof.
+  intros ext l r annots H. split.
+  - eexists. split; [apply pair_dispatch; assumption|]. intro s.
+    destruct (pair_total ext l r annots s) as [A B]. rewrite A, B. reflexivity.
+  - intro s. apply (pair_total ext l r annots s).
+Qed.
+
+Lemma unpair_macro : forall ext l r (annots : list bytes), l <> L \/ r <> L ->
+  expands_to_ref ext (unpair_name (N l r)) annots [] (ref_unpair (N l r)) /\
+  forall s, eval ext (NSeq (ref_unpair (N l r))) s = unpair_result (N l r) s.
+Proof.
+  intros ext l r annots H. split.
+  - eexists. split; [apply unpair_dispatch; assumption|]. intro s.
+    destruct (unpair_total ext l r annots s) as [A B]. rewrite A, B. reflexivity.
+  - intro s. apply (unpair_total ext l r annots s).
+Qed.
+
+Lemma unpair_pair_inverse : forall ext l r (a1 a2 : list bytes), l <> L \/ r <> L ->
+  exists pc uc, expand (pair_name (N l r)) a1 [] = Some pc /\ expand (unpair_name (N l r)) a2 [] = Some uc /\
+    forall s s1, (eval ext (NSeq pc) s = ROk s1 -> eval ext (NSeq uc) s1 = ROk s) /\
+                 (eval ext (NSeq uc) s = ROk s1 -> eval ext (NSeq pc) s1 = ROk s).
+Proof.
+  intros ext l r a1 a2 H. exists (pair_code (N l r) a1), (unpair_code (N l r) a2).
+  split; [apply pair_dispatch; assumption|]. split; [apply unpair_dispatch; assumption|].
+  intros s s1. split; [apply unpair_inverts_pair | apply pair_inverts_unpair].
+Qed.
+
+Lemma cxr_macro : forall ext a b path (annots : list bytes),
+  expands_to_ref ext (cxr_name (a :: b :: path)) annots [] (ref_cxr (a :: b :: path)) /\
+  forall v s, eval ext (NSeq (ref_cxr (a :: b :: path))) (v :: s) =
+              match access (a :: b :: path) v with Some x => ROk (x :: s) | None => RErr end.
+Proof.
+  intros. split; [|apply ref_cxr_access]. eexists. split; [apply cxr_dispatch|].
+  intro s. apply cxr_sem. discriminate.
+Qed.
+
+Lemma set_cxr_macro : forall ext a path (annots : list bytes),
+  expands_to_ref ext (set_cxr_name (a :: path)) annots [] (ref_set_cxr (a :: path)) /\
+  forall v x s, eval ext (NSeq (ref_set_cxr (a :: path))) (v :: x :: s) =
+                match set_path (a :: path) v x with Some v' => ROk (v' :: s) | None => RErr end.
+Proof.
+  intros. split; [|intros; apply ref_set_cxr_meaning; discriminate].
+  eexists. split; [apply set_cxr_dispatch|]. intro s. apply set_cxr_sem. discriminate.
+Qed.
+
+Lemma map_cxr_macro : forall ext a path (annots : list bytes) code,
+  List.length (field_annots annots) <= 1 ->
+  expands_to_ref ext (map_cxr_name (a :: path)) annots [code] (ref_map_cxr (a :: path) code).
+Proof.
+  intros ext a path annots code H. unfold expands_to_ref. rewrite map_cxr_dispatch.
+  destruct (map_cxr (a :: path) annots [code]) as [c|] eqn:E.
+  - exists c. split; [reflexivity|]. intro s. eapply map_cxr_sem; [discriminate | exact E].
+  - exfalso. eapply map_cxr_defined; [| exact H | exact E]. discriminate.
+Qed.
+
+(* the names are the ones the regexes describe: printing a tree / path and parsing it back *)
+Lemma names_parse : forall t path,
+  build_pxr_tree (pair_name t) [] = Some (dec t [] 0) /\ parse_ad (ad_letters path ++ "R")%string = Some path.
+Proof. intros. split; [apply build_pxr_pair_name | apply parse_ad_letters]. Qed.
